@@ -570,6 +570,17 @@ example : (HistBuf.run ([.set 3, .add 9] ++ [.clear] ++ [1, 2, 3, 4, 5].map .add
   rw [h]
   simp [HistBuf.run, HistBuf.step, HistBuf.setWindow, HistBuf.add, HistBuf.init, HistBuf.clampWindow, HistBuf.maxWindow]
 
+/-- The reading "`min(calls, window)` estimates" needs the window to be unchanged since the last `clear`: window 2,
+    three additions, window enlarged to 4, one more addition — four additions, window 4, but only three estimates
+    are (and can be) shown, because the first one was dropped while the window was 2.  The general statement is
+    `buffer_refines_spec` (the counter `keep`), the special case `buffer_last_min_count_window`. -/
+theorem min_count_window_needs_fixed_window_counterexample :
+    (HistBuf.run [.set 2, .add 1, .add 2, .add 3, .set 4, .add 4] : HistBuf Nat).items = [4, 3, 2] ∧
+    (HistBuf.run [.set 2, .add 1, .add 2, .add 3, .set 4, .add 4] : HistBuf Nat).window = 4 ∧
+    (HistBuf.run [.set 2, .add 1, .add 2, .add 3, .set 4, .add 4] : HistBuf Nat).items.length ≠ min 4 4 := by
+  simp [HistBuf.run, HistBuf.step, HistBuf.setWindow, HistBuf.add, HistBuf.init, HistBuf.clampWindow,
+    HistBuf.maxWindow]
+
 /-- Enlarging the window never brings anything back and never drops anything: when the request is at least the
     number of stored elements the content is unchanged (the property a storage that wraps around must keep
     when its capacity grows). -/
